@@ -25,14 +25,16 @@ FieldChoices ==
     lz |-> {Node("list", "", <<En("Facing.NORTH"), En("Facing.SOUTH")>>)},
     dz |-> {Node("dict", "", <<KVt(En("Facing.NORTH"), I("0")), KVt(En("Facing.SOUTH"), I("1"))>>)},
     n  |-> {Inner("1", "a"), Inner("-1", "multibyte")},
-    li |-> {Node("list", "", <<>>), Node("list", "", <<I("1"), I("-2147483649")>>), NoneT},
+    li |-> {Node("list", "", <<>>), Node("list", "", <<I("1"), I("-2147483649")>>), Node("list", "", <<I("9007199254740993"), I("18446744073709551615")>>), NoneT},
     ls |-> {Node("list", "", <<Sx("multibyte"), Sx("")>>), NoneT},
     le |-> {Node("list", "", <<En("Color.BLUE"), En("Color.RED")>>), Node("list", "", <<>>)},
     ln |-> {Node("list", "", <<Inner("1", "a"), Inner("0", "")>>), Node("list", "", <<>>)},
-    si |-> {Node("set", "", <<>>), Node("set", "", <<I("1"), I("-1")>>), NoneT},
+    si |-> {Node("set", "", <<>>), Node("set", "", <<I("1"), I("-1")>>), Node("set", "", <<I("9007199254740992"), I("9007199254740993")>>), NoneT},
     ss |-> {Node("set", "", <<Sx("a"), Sx("multibyte")>>)},
     se |-> {Node("set", "", <<En("Color.RED")>>), Node("set", "", <<>>)},
-    di |-> {Node("dict", "", <<>>), Node("dict", "", <<KVt(I("1"), Sx("a")), KVt(I("-1"), Sx(""))>>), NoneT},
+    di |-> {Node("dict", "", <<>>), Node("dict", "", <<KVt(I("1"), Sx("a")), KVt(I("-1"), Sx(""))>>), NoneT,
+            \* keys a double cannot hold (2^53 + 1, 2^63 - 1, below -2^53): JSON object keys travel as strings and must come back as the same ints
+            Node("dict", "", <<KVt(I("9007199254740992"), Sx("a")), KVt(I("9007199254740993"), Sx("multibyte")), KVt(I("9223372036854775807"), Sx("")), KVt(I("-9007199254740993"), Sx("a"))>>)},
     ds |-> {Node("dict", "", <<KVt(Sx("a"), I("1")), KVt(Sx("multibyte"), I("9223372036854775807"))>>)},
     de |-> {Node("dict", "", <<KVt(En("Color.RED"), I("1")), KVt(En("Color.BLUE"), I("0"))>>), Node("dict", "", <<>>)},
     dn |-> {Node("dict", "", <<KVt(Sx("a"), Inner("1", "a"))>>)},
